@@ -196,10 +196,14 @@ def havoc_value(v, name, summary=None):
     if isinstance(v, ADict):
         d = ADict(dict(v.items), open_=True, taint=frozenset(['STATE']), name=v.name)
         d.havoc = True
+        if getattr(v, 'shared', None):
+            d.shared = v.shared
         return d
     if isinstance(v, AList):
         l = AList([], elem=Unk('%s[]' % name, taint=['STATE']))
         l.havoc = True
+        if getattr(v, 'shared', None):
+            l.shared = v.shared
         return l
     if isinstance(v, (AObj, AStream)):
         return v
@@ -320,7 +324,17 @@ class ReaderHarness(object):
         if self.havoc:
             for name in mutated_self_attrs(self.P, R.cls):
                 summ = attr_store_summary(self.P, R.cls, name)
-                obj.attrs[name] = havoc_value(obj.attrs.get(name), name, summ)
+                cur = obj.attrs.get(name)
+                if cur is None and name not in obj.attrs:
+                    # not an instance attribute: a class-level container mutated through self - any content,
+                    # but still the one object every reader shares
+                    owner, expr = R.cls.find_attr(name)
+                    if owner is not None:
+                        try:
+                            cur = I.get_attr(obj, name, None)
+                        except Exception:
+                            cur = None
+                obj.attrs[name] = havoc_value(cur, name, summ)
         return obj
 
     def run(self, script, entry=None, eof_after=True, inject=None, det_prefix=0):
